@@ -19,6 +19,9 @@ struct Tracked {
     vals: Vec<Value>,        // ground truth: the value pushed for each live id
     first: Vec<String>,      // canonical rendering when first read
     dead: bool,
+    /// after clear(): a brand-new region of the same type, fed the same pushes (C08: a cleared region behaves
+    /// like a fresh one - same indices, same stored bytes); dropped by any other operation on the slot
+    twin: Option<Box<dyn SlotT>>,
 }
 
 fn canon(v: &Value) -> String {
@@ -50,9 +53,11 @@ impl Tracked {
     fn stable(&self, rng: &mut StdRng) -> (bool, String) {
         let n = self.first.len();
         let mut ids: Vec<usize> = if n <= 48 { (0..n).collect() } else {
-            let mut v: Vec<usize> = (0..8).collect();
-            v.extend(n - 8..n);
-            for _ in 0..24 {
+            // (every read re-checks all accessors of the item; very long runs sample more thinly)
+            let (edge, rnd) = if n <= 1000 { (8, 24) } else { (2, 5) };
+            let mut v: Vec<usize> = (0..edge).collect();
+            v.extend(n - edge..n);
+            for _ in 0..rnd {
                 v.push(rng.gen_range(0..n));
             }
             v
@@ -109,7 +114,12 @@ impl<'a, W: Write> Driver<'a, W> {
         match res {
             Err(m) => {
                 slots[s].dead = true;
-                self.ev(json!({"ev": "push", "s": s + 1, "form": form, "v_s": canon(v), "panic": true, "msg": m.chars().take(100).collect::<String>()}));
+                // a push that panics where a fresh region accepts it is also a C08 matter
+                let fresh_panics = match slots[s].twin.as_mut() {
+                    None => true,
+                    Some(tw) => guarded(|| tw.push(form, v)).is_err(),
+                };
+                self.ev(json!({"ev": "push", "s": s + 1, "form": form, "v_s": canon(v), "panic": true, "fresh_same": fresh_panics, "msg": m.chars().take(100).collect::<String>()}));
             }
             Ok(idx) => {
                 let t = &mut slots[s];
@@ -119,7 +129,16 @@ impl<'a, W: Write> Driver<'a, W> {
                 t.first.push(read_s.clone());
                 let (ua, _ca, pairs_ok) = heap_of(&*t.slot);
                 let idx_num = idx.as_i64().unwrap_or(-1);
-                let mut e = json!({"ev": "push", "s": s + 1, "form": form, "v_s": canon(v), "panic": false, "n_before": nb,
+                let fresh_same = match t.twin.as_mut() {
+                    None => true,
+                    Some(tw) => match guarded(|| tw.push(form, v)) {
+                        // the returned index only: stored bytes may differ legitimately (a cleared ColumnsRegion keeps
+                        // its emptied columns, and counts their headers as used)
+                        Ok(ti) => ti == idx,
+                        Err(_) => false,
+                    },
+                };
+                let mut e = json!({"ev": "push", "s": s + 1, "form": form, "v_s": canon(v), "panic": false, "n_before": nb, "fresh_same": fresh_same,
                     "idx_num": idx_num, "same_as_prev": prev_idx.map(|p| p == idx).unwrap_or(false),
                     "read_s": read_s, "read_err": read_err, "stable": stable, "changed": changed,
                     "used_before": ub, "used_after": ua, "pairs_ok": pairs_ok});
@@ -151,7 +170,7 @@ fn random_run<W: Write>(d: &mut Driver<W>, name: &str, rng: &mut StdRng, steps: 
     let shape = subj.shape.clone();
     let (dense, collapse) = subject_flags(&shape);
     let nslots = 3;
-    let mut slots: Vec<Tracked> = (0..nslots).map(|_| Tracked { slot: (subj.make)(), vals: vec![], first: vec![], dead: false }).collect();
+    let mut slots: Vec<Tracked> = (0..nslots).map(|_| Tracked { slot: (subj.make)(), vals: vec![], first: vec![], dead: false, twin: None }).collect();
     d.seq = 0;
     d.ev(json!({"ev": "reset", "subj": name, "shape": shape, "nslots": nslots, "dense": dense, "collapse": collapse}));
     let nforms = subj.forms.len();
@@ -184,8 +203,11 @@ fn random_run<W: Write>(d: &mut Driver<W>, name: &str, rng: &mut StdRng, steps: 
             };
             slots[s].vals.clear();
             slots[s].first.clear();
+            slots[s].twin = Some((subj.make)());
             let (ua, ca, _) = heap_of(&*slots[s].slot);
-            d.ev(json!({"ev": "clear", "s": s + 1, "panic": res.is_err(), "caps_before": cb, "caps_after": ca, "used_after": ua}));
+            let uf = heap_of(&**slots[s].twin.as_ref().unwrap()).0;
+            d.ev(json!({"ev": "clear", "s": s + 1, "panic": res.is_err(), "caps_before": cb, "caps_after": ca, "used_after": ua, "used_fresh": uf,
+                        "n_after": slots[s].slot.n()}));
             if res.is_err() {
                 slots[s].dead = true;
             }
@@ -235,6 +257,7 @@ fn random_run<W: Write>(d: &mut Driver<W>, name: &str, rng: &mut StdRng, steps: 
                     slots[dst].vals = slots[s].vals.clone();
                     slots[dst].first = slots[s].first.clone();
                     slots[dst].dead = false;
+                    slots[dst].twin = None;
                     let (a, b) = (slots[dst].obs_string(), slots[s].obs_string());
                     d.ev(json!({"ev": "copy", "kind": kind, "d": dst + 1, "s": s + 1, "panic": false, "obs_d": a, "obs_s": b}));
                 }
@@ -251,7 +274,7 @@ fn random_run<W: Write>(d: &mut Driver<W>, name: &str, rng: &mut StdRng, steps: 
             match m {
                 Ok(m) => {
                     let n_after = m.n();
-                    slots[dst] = Tracked { slot: m, vals: vec![], first: vec![], dead: false };
+                    slots[dst] = Tracked { slot: m, vals: vec![], first: vec![], dead: false, twin: None };
                     d.ev(json!({"ev": "merge", "d": dst + 1, "srcs": srcs.iter().map(|x| x + 1).collect::<Vec<_>>(), "panic": false, "n_after": n_after}));
                 }
                 Err(msg) => {
@@ -278,6 +301,7 @@ fn random_run<W: Write>(d: &mut Driver<W>, name: &str, rng: &mut StdRng, steps: 
             } else {
                 continue;
             };
+            slots[s].twin = None;
             let (stable, changed) = slots[s].stable(rng);
             let n = slots[s].slot.n();
             d.ev(json!({"ev": "reserve", "kind": if use_items { "items" } else { "regions" }, "s": s + 1, "panic": res.is_err(), "stable": stable, "changed": changed, "n_after": n}));
@@ -309,18 +333,19 @@ fn random_run<W: Write>(d: &mut Driver<W>, name: &str, rng: &mut StdRng, steps: 
             match res {
                 Err(m) => {
                     slots[s].dead = true;
-                    d.ev(json!({"ev": "push", "s": s + 1, "form": format!("item:{rep}"), "v_s": canon(&v), "panic": true, "msg": m}));
+                    d.ev(json!({"ev": "push", "s": s + 1, "form": format!("item:{rep}"), "v_s": canon(&v), "panic": true, "fresh_same": true, "msg": m}));
                 }
                 Ok(None) => {}
                 Ok(Some(idx)) => {
                     let t = &mut slots[s];
+                    t.twin = None;
                     let (read_s, read_err) = read_str(&*t.slot, nb);
                     let (stable, changed) = t.stable(rng);
                     t.vals.push(v.clone());
                     t.first.push(read_s.clone());
                     let (ua, _, pairs_ok) = heap_of(&*t.slot);
                     let mut e = json!({"ev": "push", "s": s + 1, "form": format!("item:{rep}"), "v_s": canon(&v), "panic": false, "n_before": nb,
-                        "idx_num": idx.as_i64().unwrap_or(-1), "same_as_prev": prev_idx.map(|p| p == idx).unwrap_or(false),
+                        "idx_num": idx.as_i64().unwrap_or(-1), "same_as_prev": prev_idx.map(|p| p == idx).unwrap_or(false), "fresh_same": true,
                         "read_s": read_s, "read_err": read_err, "stable": stable, "changed": changed,
                         "used_before": ub, "used_after": ua, "pairs_ok": pairs_ok});
                     if collapse {
@@ -344,7 +369,7 @@ fn big_runs<W: Write>(d: &mut Driver<W>, rng: &mut StdRng, long: usize) {
         }
         let subj = catalogue::find(name);
         let (dense, collapse) = subject_flags(&subj.shape);
-        let mut slots = vec![Tracked { slot: (subj.make)(), vals: vec![], first: vec![], dead: false }];
+        let mut slots = vec![Tracked { slot: (subj.make)(), vals: vec![], first: vec![], dead: false, twin: None }];
         d.run += 1;
         d.seq = 0;
         d.ev(json!({"ev": "reset", "subj": name, "shape": subj.shape, "nslots": 1, "dense": dense, "collapse": collapse}));
@@ -379,7 +404,7 @@ fn random_run_pushes_only<W: Write>(d: &mut Driver<W>, name: &str, rng: &mut Std
     let subj = catalogue::find(name);
     let shape = subj.shape.clone();
     let (dense, collapse) = subject_flags(&shape);
-    let mut slots = vec![Tracked { slot: (subj.make)(), vals: vec![], first: vec![], dead: false }];
+    let mut slots = vec![Tracked { slot: (subj.make)(), vals: vec![], first: vec![], dead: false, twin: None }];
     d.seq = 0;
     d.ev(json!({"ev": "reset", "subj": name, "shape": shape, "nslots": 1, "dense": dense, "collapse": collapse}));
     let nforms = subj.forms.len();
@@ -390,6 +415,28 @@ fn random_run_pushes_only<W: Write>(d: &mut Driver<W>, name: &str, rng: &mut Std
             _ => gen_value(&shape, rng, false),
         };
         last = Some(v.clone());
+        d.push(&mut slots, 0, rng.gen_range(0..nforms), &v, rng, collapse);
+    }
+    // ... and a clear once the allocations are large, followed by the same kind of pushes next to a fresh twin
+    if slots[0].dead {
+        return;
+    }
+    let (_, cb, _) = heap_of(&*slots[0].slot);
+    let res = {
+        let sl = &mut slots[0].slot;
+        guarded(|| sl.clear())
+    };
+    slots[0].vals.clear();
+    slots[0].first.clear();
+    slots[0].twin = Some((subj.make)());
+    let (ua, ca, _) = heap_of(&*slots[0].slot);
+    let uf = heap_of(&**slots[0].twin.as_ref().unwrap()).0;
+    d.ev(json!({"ev": "clear", "s": 1, "panic": res.is_err(), "caps_before": cb, "caps_after": ca, "used_after": ua, "used_fresh": uf, "n_after": slots[0].slot.n()}));
+    if res.is_err() {
+        return;
+    }
+    for _ in 0..20 {
+        let v = gen_value(&shape, rng, false);
         d.push(&mut slots, 0, rng.gen_range(0..nforms), &v, rng, collapse);
     }
 }
